@@ -17,6 +17,7 @@ import (
 	"regexp"
 	"strconv"
 	"strings"
+	"syscall"
 	"time"
 
 	"verif/fw"
@@ -102,6 +103,10 @@ func fillLocalStore(dir string, blob []byte, chunks []desync.IndexChunk) error {
 
 // C01: `desync extract` with seeds, invalid-seed options, prior destination content, with and without --in-place.
 func runC01Proc(c *fw.Case) {
+	if c.Chance(1, 5, "proc.sysfault") {
+		runSysFaultProc(c, "C01")
+		return
+	}
 	c.Probe("process-level-case (real desync binary)")
 	s := genAsmScenario(c, true)
 	storeDir := filepath.Join(c.Dir(), "store.d")
@@ -199,6 +204,10 @@ func tailBytes(b []byte, n int) string {
 
 // C09: `desync cat -o <offset> -l <length> <index> [<output file>]`, optionally with a cache and with a chunk missing from the store.
 func runC09Proc(c *fw.Case) {
+	if c.Chance(1, 5, "proc.sysfault") {
+		runSysFaultProc(c, "C09")
+		return
+	}
 	c.Probe("process-level-case (real desync binary)")
 	sz := c09Sizes[c.Draw(len(c09Sizes), "c09.sizes")]
 	blob := genNullyBlob(c, sz)
@@ -491,6 +500,10 @@ func runC16Proc(c *fw.Case) {
 
 // C05: `desync tar` then `desync untar`, catar file or index+store, both digests.
 func runC05Proc(c *fw.Case) {
+	if c.Chance(1, 5, "proc.sysfault") {
+		runSysFaultProc(c, "C05")
+		return
+	}
 	c.Probe("process-level-case (real desync binary)")
 	src := filepath.Join(c.Dir(), "src")
 	dst := filepath.Join(c.Dir(), "dst")
@@ -1917,4 +1930,247 @@ func runC03Proc(c *fw.Case) {
 		}
 	}
 	c.Outcome("ok")
+}
+
+// ---- file-system calls of the real binary failing (full disk, I/O error, permission) ----
+
+var sysErrnoNames = map[syscall.Errno]string{syscall.ENOSPC: "ENOSPC", syscall.EIO: "EIO", syscall.EDQUOT: "EDQUOT", syscall.EACCES: "EACCES", syscall.EPERM: "EPERM", syscall.EROFS: "EROFS"}
+
+// sysFaultRuns runs `desync args...` under the tracer, first untouched (it must succeed and verify() must be happy),
+// then several times with one drawn file-system call failing - once, or from then on for every call that needs space.
+// The command may do whatever it likes with the error except exit 0 with a result that verify() rejects.
+func sysFaultRuns(c *fw.Case, site string, args []string, reset func(), verify func() string) bool {
+	c.Probe("process-level-case (real desync binary, ptrace)")
+	dir := c.Dir()
+	reset()
+	r0, err := runTraced(0, dir, 2*time.Minute, args...)
+	if err != nil {
+		c.HarnessError("%v", err)
+		return false
+	}
+	if r0.timeout {
+		c.Probe("procsim-timeout-case-dropped")
+		return false
+	}
+	if why := verify(); r0.exit != 0 || r0.signaled || why != "" {
+		c.Violate("command-failed", site, "fault-free run under the tracer: exit %d signaled=%v %s (`desync %s`)", r0.exit, r0.signaled, why, strings.Join(args, " "))
+		return false
+	}
+	S := len(r0.points)
+	if S == 0 {
+		return true
+	}
+	c.NonTrivial()
+	for i := 0; i < 8; i++ {
+		k := 1 + c.Draw(S, "sysfault.k")
+		name := r0.points[k-1]
+		f := &sysFault{}
+		if spaceCall(name) {
+			f.errno = []syscall.Errno{syscall.ENOSPC, syscall.EIO, syscall.EDQUOT}[c.Draw(3, "sysfault.errno")]
+			f.sticky = c.Bool("sysfault.sticky")
+		} else {
+			f.errno = []syscall.Errno{syscall.EIO, syscall.EACCES, syscall.EPERM, syscall.EROFS}[c.Draw(4, "sysfault.errno")]
+		}
+		reset()
+		r, err := runTracedFault(k, f, dir, 2*time.Minute, args...)
+		if err != nil {
+			c.HarnessError("%v", err)
+			return false
+		}
+		if r.timeout {
+			c.Probe("procsim-timeout-case-dropped")
+			continue
+		}
+		if r.killedAt == "" || r.signaled {
+			continue // another interleaving of the threads ended before its k-th call
+		}
+		c.SubEval(1)
+		kind := "syscall-" + sysErrnoNames[f.errno]
+		if f.sticky {
+			kind += "-from-then-on"
+		}
+		c.Fault(kind)
+		if r.exit == 0 {
+			if why := verify(); why != "" {
+				c.Violate("syscall-error-masked", site, "file-system call %d of %d (%s) failed with %s (sticky=%v), `desync %s` exited 0, but %s", k, S, r.killedAt, sysErrnoNames[f.errno], f.sticky, strings.Join(args, " "), why)
+				return false
+			}
+		}
+	}
+	return true
+}
+
+// runSysFaultProc builds the scenario for one property and hands it to sysFaultRuns.
+func runSysFaultProc(c *fw.Case, prop string) {
+	dir := c.Dir()
+	sz := sizes{64, 256, 1024}
+	blob := genBlob(c, sz, c.Range(3, 14, "sf.chunks")*int(sz.avg))
+	idx := mkIndex(blob, sz)
+	if len(idx.Chunks) == 0 {
+		c.Outcome("empty")
+		return
+	}
+	src := filepath.Join(dir, "src.store")
+	if err := fillLocalStore(src, blob, idx.Chunks); err != nil {
+		c.HarnessError("%v", err)
+		return
+	}
+	indexFile := filepath.Join(dir, "blob.caibx")
+	out := filepath.Join(dir, "out")
+	target := filepath.Join(dir, "target.store")
+	blobFile := filepath.Join(dir, "blob")
+	made := filepath.Join(dir, "made.caibx")
+	n := []string{"1", "3"}[c.Draw(2, "sf.n")]
+	var prior []byte
+	if c.Bool("sf.prior") {
+		prior = editBlob(c, blob, "prior")
+	}
+	clean := func() {
+		os.RemoveAll(target)
+		os.MkdirAll(target, 0755)
+		os.RemoveAll(out)
+		os.Remove(made)
+		os.WriteFile(blobFile, blob, 0644)
+		writeIndexFile(indexFile, idx)
+		if ents, err := os.ReadDir(dir); err == nil {
+			for _, e := range ents {
+				if strings.HasPrefix(e.Name(), ".") {
+					os.RemoveAll(filepath.Join(dir, e.Name()))
+				}
+			}
+		}
+	}
+	storeComplete := func() string {
+		if _, why := validateStoreDir(target); why != "" {
+			return why
+		}
+		ls, _ := desync.NewLocalStore(target, desync.StoreOptions{})
+		for i, ch := range idx.Chunks {
+			got, err := ls.GetChunk(ch.ID)
+			if err != nil {
+				return fmt.Sprintf("chunk %d cannot be read back from the target store: %v", i, err)
+			}
+			if b, err := got.Data(); err != nil || !bytes.Equal(b, blob[ch.Start:ch.Start+ch.Size]) {
+				return fmt.Sprintf("chunk %d in the target store is not the chunk", i)
+			}
+		}
+		return ""
+	}
+	var args []string
+	var reset func()
+	var verify func() string
+	site := ""
+	switch prop {
+	case "C01":
+		inPlace := c.Bool("sf.inplace")
+		args = []string{"extract", "-n", n, "-s", src, indexFile, out}
+		site = "desync extract (failing system call)"
+		if inPlace {
+			args = []string{"extract", "--in-place", "-n", n, "-s", src, indexFile, out}
+			site = "desync extract --in-place (failing system call)"
+		}
+		reset = func() {
+			clean()
+			if prior != nil {
+				os.WriteFile(out, prior, 0644)
+			}
+		}
+		verify = func() string {
+			got, err := os.ReadFile(out)
+			if err != nil || !bytes.Equal(got, blob) {
+				return fmt.Sprintf("the destination (%d bytes, %v) is not the blob (%d bytes)", len(got), err, len(blob))
+			}
+			return ""
+		}
+	case "C09":
+		off := c.Draw(len(blob), "sf.off")
+		length := 1 + c.Draw(len(blob)-off, "sf.len")
+		args = []string{"cat", "-n", n, "-s", src, "-o", strconv.Itoa(off), "-l", strconv.Itoa(length), indexFile, out}
+		site = "desync cat (failing system call)"
+		reset = clean
+		verify = func() string {
+			got, err := os.ReadFile(out)
+			if err != nil || !bytes.Equal(got, blob[off:off+length]) {
+				return fmt.Sprintf("the output file (%d bytes, %v) is not the requested range (%d bytes)", len(got), err, length)
+			}
+			return ""
+		}
+	case "C06":
+		kind := c.Draw(3, "sf.cmd")
+		switch kind {
+		case 0:
+			args = []string{"chop", "-n", n, "-s", target, indexFile, blobFile}
+		case 1:
+			args = []string{"cache", "-n", n, "-s", src, "-c", target, indexFile}
+		case 2:
+			args = []string{"make", "-n", n, "-m", "1:4:16", "-s", target, made, blobFile}
+		}
+		site = "desync " + args[0] + " (failing system call)"
+		reset = clean
+		verify = storeComplete
+		if kind == 2 {
+			msz := sizes{1024, 4096, 16384}
+			blob = genBlob(c, msz, 6*int(msz.max))
+			idx = mkIndex(blob, msz)
+			if len(idx.Chunks) == 0 {
+				c.Outcome("empty")
+				return
+			}
+			verify = func() string {
+				if why := storeComplete(); why != "" {
+					return why
+				}
+				f, err := os.Open(made)
+				if err != nil {
+					return "no index file was written"
+				}
+				defer f.Close()
+				got, err := desync.IndexFromReader(f)
+				if err != nil {
+					return "the index file is unreadable: " + err.Error()
+				}
+				if cls, d := compareTables(got.Chunks, idx.Chunks); cls != "" {
+					return "the index does not describe the input: " + d
+				}
+				return ""
+			}
+		}
+	case "C05":
+		srcTree := filepath.Join(dir, "tree")
+		if _, err := genTree(c, srcTree, 12); err != nil {
+			c.HarnessError("%v", err)
+			return
+		}
+		want, err := snapshot(srcTree)
+		if err != nil {
+			c.HarnessError("%v", err)
+			return
+		}
+		archive := filepath.Join(dir, "tree.catar")
+		if exit, _, _, err := runDesync("tar", archive, srcTree); err != nil || exit != 0 {
+			c.HarnessError("tar for the scenario: %v exit %d", err, exit)
+			return
+		}
+		args = []string{"untar", archive, out}
+		site = "desync untar (failing system call)"
+		reset = func() {
+			os.RemoveAll(out)
+			os.MkdirAll(out, 0755)
+		}
+		verify = func() string {
+			got, err := snapshot(out)
+			if err != nil {
+				return err.Error()
+			}
+			if cat, d := diffTrees(want, got, map[string]bool{"mtime-symlink": true}); cat != "" {
+				return "the unpacked tree differs (" + cat + "): " + d
+			}
+			return ""
+		}
+	}
+	c.Class(fmt.Sprintf("cli failing-syscall %s n=%s", args[0], n))
+	c.Note("real `desync %s` with one file-system call failing", strings.Join(args, " "))
+	if sysFaultRuns(c, site, args, reset, verify) && !c.Violated() {
+		c.Outcome("ok")
+	}
 }
